@@ -27,6 +27,7 @@ inductive DOp where
 def parseOp (s : String) : Option DOp :=
   match words s with
   | ["d", id, sc] => id.toNat?.map (fun i => .doc i sc)
+  | ["d", id, sc, "e"] => id.toNat?.map (fun i => .doc i sc)   -- no index name: elasticsearch's verdict counts all the same
   | ["w"] => some .wrong
   | ["p", _] => some .pause
   | _ => none
@@ -61,6 +62,7 @@ def check (input impl : String) : Verdict :=
               | [ans, snd] =>
                 if ans == "-" then some "unanswered-after-shutdown"
                 else if ans.contains '+' then some "answered-more-than-once"
+                else if ans == "Ew" then some "answered-with-another-documents-error"
                 else if ans ≠ showAns a then (if a == .success then some "ok-document-answered-with-error" else some "failed-document-answered-with-success")
                 else if !starSends && snd ≠ toString n then
                   (if (snd.toNat?.getD 0) > n then some "sent-again-after-final-answer" else some "not-retried")
@@ -80,7 +82,7 @@ def check (input impl : String) : Verdict :=
           (if docs.any (fun ds => ds.2.contains 'r') then ["retryable"] else []) ++
           (if docs.any (fun ds => ds.2.contains 'm') then ["mapping"] else []) ++
           (if docs.any (fun ds => (docResult mr (scriptOf ds.2) (mr + 1) 0).2 = mr + 1) then ["budget-exhausted"] else []) ++
-          (if nWrong > 0 then ["wrong-type"] else []) ++ (if docs.length > bs then ["multi-batch"] else [])
+          (if nWrong > 0 then ["wrong-type"] else []) ++ (if (input.splitOn " e").length > 1 then ["no-index-name"] else []) ++ (if docs.length > bs then ["multi-batch"] else [])
         { model := model, spec := sp, tags := tags }
       | _, _, _ => { model := "bad-input" }
     | _, _ => { model := "bad-input" }
